@@ -15,7 +15,11 @@ for p in props:
             meta = json.load(open(os.path.join(sd, "meta.json")))
         except Exception:
             continue
-        if p in meta.get("caught_by", []) or (meta.get("property") == p and meta.get("expect_caught", True)):
+        cb = meta.get("caught_by", [])
+        if meta.get("property") == p and cb and p not in cb:
+            print("OTHER  %-60s reported by %s (the changed code is that property's anchor), not by %s" % (os.path.relpath(sd, V), ",".join(cb), p))
+            continue
+        if p in cb or (meta.get("property") == p and meta.get("expect_caught", True)):
             if os.path.exists(os.path.join(sd, "patch.diff")):
                 pats.append(os.path.join(sd, "patch.diff"))
     for pat in pats:
